@@ -161,6 +161,11 @@ def cases(rng, tier):
         if length // unit > 60:
             length = 60 * unit + rng.randint(0, unit)
         yield {"k": "split", "start": start, "end": start + length, "div": div, "max": rng.choice([3, 3, 3, 2, 1, 0])}
+    for _ in range(400 if thorough else 40):
+        # deep searches: more than 30 quarters need two or three splits (or have no solution)
+        div = rng.choice([1, 1, 2, 3])
+        start = rng.choice([0, 0, 1, 2, 3, 4]) * (div if rng.random() < 0.7 else 1)
+        yield {"k": "split", "start": start, "end": start + rng.randint(31, 44) * div + rng.choice([0, 0, 0, 1]), "div": div, "max": rng.choice([3, 3, 2])}
     for _ in range(600 if thorough else 80):
         a = rng.randint(0, 200)
         yield {"k": "osplits", "start": a, "end": a + rng.randint(0, 120), "unit": rng.choice([1, 1, 2, 3, 4, 5, 7, 15, 16])}
@@ -563,6 +568,9 @@ def check_add_measures(d, before, after, first, last, out):
     tst = [t for t, _, _ in d["ts"]]
     stops = set(tst) | set(s for s, _ in exs) | {last}
     for s, e in rest:  # the added ones
+        if any(s < t < e for t in tst):
+            out.append("add_measures/length: added measure [%s,%s) is not cut by the signature change inside it (%s)" % (s, e, tst))
+            return
         bl = barlen(s)
         if not (e - s == bl or (e - s < bl and e in stops)):
             out.append("add_measures/length: added measure [%s,%s) has length %s, the signature in force implies %s and nothing cuts it at %s" % (
